@@ -1219,6 +1219,49 @@ fn alias_every_offset(ctx: &mut RunCtx) -> RunResult {
     Ok(())
 }
 
+/// Drop the two ends of a stream: 0 here, 1 each on its own thread, 2 one here
+/// and one on a thread, 3 while a panic unwinds through the frame owning them.
+fn drop_pair<W: Send + 'static, R: Send + 'static>(w: W, r: R, how: usize, writer_first: bool) {
+    match how {
+        0 => {
+            if writer_first {
+                drop(w);
+                drop(r);
+            } else {
+                drop(r);
+                drop(w);
+            }
+        }
+        1 => {
+            let a = std::thread::spawn(move || drop(w));
+            let b = std::thread::spawn(move || drop(r));
+            let _ = a.join();
+            let _ = b.join();
+        }
+        2 => {
+            if writer_first {
+                drop(w);
+                let _ = std::thread::spawn(move || drop(r)).join();
+            } else {
+                drop(r);
+                let _ = std::thread::spawn(move || drop(w)).join();
+            }
+        }
+        _ => {
+            // Declared in this order: locals drop in reverse during unwinding.
+            if writer_first {
+                let _r = r;
+                let _w = w;
+                panic!("verif: unwinding through stream ends");
+            } else {
+                let _w = w;
+                let _r = r;
+                panic!("verif: unwinding through stream ends");
+            }
+        }
+    }
+}
+
 fn mapping_history(src: &mut Src, ctx: &mut RunCtx) -> RunResult {
     let canary_a = Canary::new(2);
     let base_fds = count_fds();
@@ -1235,7 +1278,42 @@ fn mapping_history(src: &mut Src, ctx: &mut RunCtx) -> RunResult {
     sys::ledger_start();
     let result: RunResult = (|| {
         for op in 0..nops {
-            let act = src.below(5);
+            let act = src.below(6);
+            if act == 5 {
+                // A stream pair through the public constructors, its two ends
+                // dropped in a seeded order and manner: plainly, on another
+                // thread, or while a panic unwinds through their owner.
+                let nocopy = src.chance(1, 4);
+                let pages = *src.pick(&[1usize, 2, 8]);
+                let how = src.below(4);
+                let writer_first = src.coin();
+                desc.push(format!("pair pages {pages} nocopy {nocopy} how {how} writer_first {writer_first}"));
+                ctx.count("stream_pair_created_and_dropped");
+                if how == 3 {
+                    ctx.count("ends_dropped_during_unwind");
+                }
+                let r = catch(|| {
+                    if nocopy {
+                        let (w, r) = new_nocopy_stream::<Vec<u8>>();
+                        w.push(vec![1, 2, 3], &[]);
+                        drop_pair(w, r, how, writer_first);
+                    } else {
+                        rustradio::verif::set_stream_size(pages * 4096);
+                        let made = catch(new_stream::<u32>);
+                        rustradio::verif::set_stream_size(0);
+                        if let Ok((w, r)) = made {
+                            drop_pair(w, r, how, writer_first);
+                        }
+                    }
+                });
+                rustradio::verif::set_stream_size(0);
+                if let Err(p) = r {
+                    if p.msg != "verif: unwinding through stream ends" {
+                        return Err(Violation::new("C18:create-panicked", format!("op {op}: stream pair: {} at {}", p.msg, p.loc)));
+                    }
+                }
+                continue;
+            }
             if act <= 2 || live.is_empty() {
                 // create
                 let size = match src.below(8) {
